@@ -169,6 +169,7 @@ def plan(S, prop, mode, tier, avoid):
     ops = []
     explicit_seen = False
     last_npts = None
+    follow = None
     c15 = (prop == "C15")
     for _ in range(nops):
         k = wpick(r, [("func", 6), ("data", 5), ("rule", 3), ("poly", 3), ("func_raises", 1.2),
@@ -181,10 +182,13 @@ def plan(S, prop, mode, tier, avoid):
             if can_omit and chance(r, 0.4):
                 op["npts"] = None
             else:
-                if last_npts is not None and chance(r, 0.25):
+                if follow is not None and chance(r, 0.7):
+                    op["npts"] = follow
+                elif last_npts is not None and chance(r, 0.25):
                     op["npts"] = last_npts
                 else:
                     op["npts"] = npts()
+                follow = None
                 explicit_seen = True
                 last_npts = op["npts"]
         if k in ("func", "func_raises", "bad_range"):
@@ -195,12 +199,24 @@ def plan(S, prop, mode, tier, avoid):
             c, h = draw_interval(r)
             m = r.randrange(2, 40)
             op.update({"c": c, "h": h, "m": m, "g": draw_g(r), "noise": chance(r, 0.3),
-                       "dseed": r.randrange(1 << 30)})
+                       "dseed": r.randrange(1 << 30), "even": chance(r, 0.25)})
+            prev = [o for o in ops if o["k"] == "data"]
+            if k == "data" and prev and chance(r, 0.4):
+                # a sibling of the previous table: same length, same end points, same npts -- other abscissae inside
+                # (many y tables on "the same" x range is the ordinary way one integrator object is reused)
+                q = prev[-1]
+                op.update({"c": q["c"], "h": q["h"], "m": q["m"], "npts": q["npts"], "sibling": True})
             if c15:
                 op["px"] = present.draw(r, "f8")
                 op["py"] = present.draw(r, "f8")
         elif k == "bad_npts":
             op["npts"] = pick(r, [0, -1, -7])
+            if chance(r, 0.5):
+                # a point count of the wrong TYPE (a float): rejected -- and numerically equal to a count that a
+                # later, valid call may ask for
+                nn = npts()
+                op["npts"] = float(nn)
+                follow = nn
             c, h = draw_interval(r)
             op.update({"c": c, "h": h, "g": draw_g(r)})
             explicit_seen = True
@@ -233,6 +249,8 @@ def _data(op):
     g = np.random.Generator(np.random.PCG64(op["dseed"]))
     m = op["m"]
     t = np.sort(g.uniform(-1, 1, m))
+    if op.get("even"):
+        t = np.linspace(-1.0, 1.0, m)
     t[0], t[-1] = -1.0, 1.0
     # drop near-duplicates so that the interpolant's slope stays modest
     keep = np.concatenate(([True], np.diff(t) > 1e-4))
@@ -387,6 +405,8 @@ def execute(script, run, env):
                 _judge_func(run, integrate, a, b, f, n_eff, got, feats)
         elif k in ("data", "qgauss"):
             x, y = _data(op)
+            if op.get("sibling"):
+                run.fault("sibling_table_same_length_and_end_points")
             n_eff = op["npts"] if op["npts"] is not None else cur
             if n_eff is None or n_eff == "poisoned":
                 run.event(0, k, "", "skipped")
